@@ -45,6 +45,7 @@ type c13Obs struct {
 	ConnsOpen          int    `json:"connsOpen"`
 	SessionsSeen       int    `json:"sessionsSeen"`
 	ClientSawTerminal  bool   `json:"clientSawTerminal"`
+	ResetLogged        bool   `json:"resetLogged,omitempty"` // the library logged "connection reset by peer" while the case ran (real sockets)
 }
 
 // sessionGoroutines counts goroutines that belong to a session (receiver, dispatch loops, serving goroutine, client listener).
@@ -225,11 +226,16 @@ func judgeC13(c *c13Case, obs *c13Obs, o *Outcome) {
 		if obs.TermErr != "" {
 			o.Class("terminating-call-error=" + errClassStr(obs.TermErr))
 		}
+		// a reset reported by the library while the case ran keys the (open) finding about resets narrowly; it decides nothing
+		pre, rnote := "C13/", ""
+		if obs.ResetLogged && c.Real && strings.HasPrefix(c.Initiator, "server") {
+			pre, rnote = "C13/reset-by-peer/", " (the client's receiver ended with \"connection reset by peer\")"
+		}
 		if obs.CliState != wantCli {
-			o.Fail("C13/client-state/"+key, "client channel state is %q after %s, expected %q", obs.CliState, c.Initiator, wantCli)
+			o.Fail(pre+"client-state/"+key, "client channel state is %q after %s, expected %q%s", obs.CliState, c.Initiator, wantCli, rnote)
 		}
 		if c.Initiator != "client-finish" && !obs.ClientSawTerminal {
-			o.Fail("C13/client-did-not-observe-terminal/"+key, "the client never observed the %s session", wantCli)
+			o.Fail(pre+"client-did-not-observe-terminal/"+key, "the client never observed the %s session%s", wantCli, rnote)
 		}
 		// (2) streams and receiver-done closed on both sides, consumers return
 		if !obs.CliRcvDone || !obs.CliStreamsClosed {
